@@ -143,7 +143,7 @@ def tkind(s):
         return ("double",)
     if s == "void":
         return ("void",)
-    if s.startswith("struct ") or s in SIZEOF or s in ("PyObject", "cpu_set_t"):
+    if s.startswith("struct ") or s.startswith("union ") or s in SIZEOF or s in ("PyObject", "cpu_set_t"):
         return ("struct", s)
     if "(" in s:
         return ("func", s)
@@ -446,8 +446,8 @@ class CInterp:
             c = Cell("int", IV(bvc(v, 32), 32, True) if v is not None else IV(self.fresh_bv(name, 32), 32, True), name)
         elif name.startswith("PyExc_"):
             c = Cell("PyObject *", PV(self.pyobj(name, borrowed=True)), name)
-        elif name == "_Py_NoneStruct":
-            c = Cell("PyObject", self.pyobj("None", borrowed=True), name)
+        elif name.startswith("_Py_") and name.endswith("Struct"):
+            c = Cell("PyObject", self.pyobj(name[4:-6], borrowed=True), name)
         elif tkind(ty)[0] == "int":
             c = Cell(ty, self.fresh_int(name, ty), name)
         elif tkind(ty)[0] == "ptr":
@@ -805,6 +805,10 @@ class CInterp:
         model = self.spec.externs.get(name) or EXTERN.get(name)
         if model is not None:
             self.ghost["calls"].append(name)
+            chk = self.spec.checks.get(name)
+            if chk is not None:
+                for nm, g in chk(self, args):
+                    self.oblige(nm, "post", g)
             return model(self, args, n)
         if name in self.tu:
             return self.inline(self.tu[name], args)
@@ -1122,6 +1126,43 @@ def x_decode(I, args, n):
     return PV(I.pyobj("str", owned=1, of=(args[0].obj, args[0].off)))
 
 
+def x_decode_size(I, args, n):
+    p, ln = args
+    o = p.obj
+    if o is None or o.kind != "arr":
+        raise Unsupported("DecodeFSDefaultAndSize argument")
+    if o.n is not None:
+        I.oblige(f"PyUnicode_DecodeFSDefaultAndSize reads {o.name}[off..off+size) inside its {o.n} bytes", "bounds",
+                 Z.And(Z.ULE(bv64(p.off), bvc(o.n, 64)), Z.ULE(ln.t, bvc(o.n, 64) - bv64(p.off))))
+    if I.choose(2, "PyUnicode_DecodeFSDefaultAndSize fails/succeeds") == 0:
+        I.ghost["err"] = Z.BoolVal(True)
+        return PV(None)
+    return PV(I.pyobj("str", owned=1, of=(o, p.off), size=ln.t))
+
+
+def x_strnlen(I, args, n):
+    p, mx = args
+    o = p.obj
+    if o is None or o.kind != "arr" or o.n is None or o.n > 300 or not isinstance(p.off, int):
+        raise Unsupported("strnlen argument")
+    I.oblige(f"strnlen(maxlen) stays inside {o.name}[{o.n}]", "bounds", Z.ULE(mx.t, bvc(o.n - p.off, 64)))
+    r = I.fresh_bv("strnlen", 64)
+    facts = [Z.ULE(r, mx.t)]
+    for i in range(o.n - p.off):
+        facts.append(Z.Implies(Z.ULT(bvc(i, 64), r), Z.Select(o.content, bvc(p.off + i, 64)) != 0))
+        facts.append(Z.Implies(Z.And(r == i, Z.ULT(r, mx.t)), Z.Select(o.content, bvc(p.off + i, 64)) == 0))
+    I.assume(Z.And(*facts))
+    return IV(r, 64, False)
+
+
+def x_from_string(I, args, n):
+    I.has_nul(args[0], "PyUnicode_FromString")
+    if I.choose(2, "PyUnicode_FromString fails/succeeds") == 0:
+        I.ghost["err"] = Z.BoolVal(True)
+        return PV(None)
+    return PV(I.pyobj("str", owned=1, of=(args[0].obj, args[0].off)))
+
+
 def x_list_new(I, args, n):
     if I.choose(2, "PyList_New fails/succeeds") == 0:
         I.ghost["err"] = Z.BoolVal(True)
@@ -1353,7 +1394,7 @@ def x_record(name, ctype):
             return PV(None)
         k = I.ghost.get("records", 0)
         I.ghost["records"] = k + 1
-        m = Mem("struct", f"{name}#{k}", ctype=ctype, fields={})
+        m = Mem("struct", f"{name}#{k}", ctype=ctype, fields={}, library_owned=True)
         I.ghost.setdefault("record_objs", []).append(m)
         return PV(m, 0)
     return f
@@ -1381,6 +1422,70 @@ def x_py_type(I, args, n):
     return PV(I.pyobj("type", borrowed=True))
 
 
+def x_fd_result(name):
+    def f(I, args, n):
+        return sys_result(I, name, 32, (0, 1 << 20))
+    return f
+
+
+def _havoc_struct(I, o, depth=0):
+    if o is None or o.kind != "struct" or depth > 2:
+        return
+    for c in list(o.fields.values()):
+        v = c.value
+        if isinstance(v, PV) and isinstance(v.obj, Mem):
+            _havoc_struct(I, v.obj, depth + 1)      # e.g. ifr_data -> the ethtool_cmd it points to
+        elif isinstance(v, Mem) and v.kind == "struct":
+            _havoc_struct(I, v, depth)              # nested struct / union member
+    keep = {k: c for k, c in o.fields.items()
+            if isinstance(c.value, PV) or (isinstance(c.value, Mem) and c.value.kind == "struct")}
+    o.fields.clear()
+    o.fields.update(keep)
+    o.zeroed = False
+
+
+def x_ioctl(I, args, n):
+    p = args[2] if len(args) > 2 else None
+    if isinstance(p, PV) and p.obj is not None:
+        if p.obj.kind != "struct":
+            raise Unsupported("ioctl argument")
+        _havoc_struct(I, p.obj)
+    return sys_result(I, "ioctl", 32, (0, 0))
+
+
+def x_sysinfo(I, args, n):
+    _havoc_struct(I, args[0].obj)
+    return sys_result(I, "sysinfo", 32, (0, 0))
+
+
+def x_strncpy(I, args, n):
+    dst, src, cnt = args
+    o = dst.obj
+    if o is None or o.kind != "arr" or o.n is None:
+        raise Unsupported("strncpy destination")
+    I.has_nul(src, "strncpy source")
+    I.oblige(f"strncpy writes n bytes inside {o.name}[{o.n}]", "bounds",
+             Z.And(Z.ULE(bv64(dst.off), bvc(o.n, 64)), Z.ULE(cnt.t, bvc(o.n, 64) - bv64(dst.off))))
+    I.n_fresh += 1
+    o.content = Z.Array(f"strncpy!{I.n_fresh}", Z.BitVecSort(64), Z.BitVecSort(o.bits))
+    o.nul_w = []
+    return dst
+
+
+def x_long_result(name):
+    def f(I, args, n):
+        return IV(I.fresh_bv(name, 64), 64, True)
+    return f
+
+
+def x_is_true(I, args, n):
+    _use_obj(I, args[0], "PyObject_IsTrue")
+    r = I.fresh_bv("is_true", 32)
+    I.assume(Z.Or(r == 0, r == 1, r == -1))
+    I.ghost["err"] = Z.Or(I.ghost["err"], r == -1)
+    return IV(r, 32, True)
+
+
 def x_fprintf(I, args, n):
     return IV(I.fresh_bv("fprintf", 32), 32, True)
 
@@ -1400,6 +1505,11 @@ EXTERN = {
     "PySequence_GetItem": x_seq_getitem, "PyLong_AsLong": x_aslong, "sched_setaffinity": x_int_result("sched_setaffinity"),
     "fprintf": x_fprintf, "getutent": x_record("getutent", "struct utmp"),
     "getmntent": x_record("getmntent", "struct mntent"), "getnameinfo": x_getnameinfo, "Py_TYPE": x_py_type,
+    "strnlen": x_strnlen, "PyUnicode_DecodeFSDefaultAndSize": x_decode_size,
+    "socket": x_fd_result("socket"), "close": x_int_result("close"), "ioctl": x_ioctl, "sysinfo": x_sysinfo,
+    "strncpy": x_strncpy, "kill": x_int_result("kill"), "sysconf": x_long_result("sysconf"),
+    "PyObject_IsTrue": x_is_true, "PyUnicode_FromString": x_from_string, "PyBool_FromLong": x_pylong_fromlong,
+    "psutil_PyErr_SetFromOSErrnoWithSyscall": x_set_err(), "psutil_debug": x_noop,
 }
 
 
@@ -1413,7 +1523,9 @@ def default_field(I, obj, name, ty):
         if k[1] in ("char",):
             # library-owned string (getmntent & co. return NUL-terminated fields)
             return Cell(ty, PV(I.new_array(f"{obj.name}.{name}", "char", None, cstr=True, content=None), 0), name)
-        raise Unsupported(f"pointer field {name}")
+        if getattr(obj, "library_owned", False):
+            raise Unsupported(f"pointer field {name} of a library record")
+        return Cell(ty, PV(None), name)     # local, not yet assigned: NULL (a dereference is then reported)
     if getattr(obj, "zeroed", False) and k[0] == "int":
         return Cell(ty, IV(bvc(0, k[1]), k[1], k[2]), name)
     if getattr(obj, "zeroed", False) and k[0] == "arr":
@@ -1427,7 +1539,7 @@ def default_field(I, obj, name, ty):
 
 class CContract:
     def __init__(self, prop, file, func, filt=None, params=None, loops=None, post=None, externs=None, enums=None,
-                 field=None, note="", replay=None, max_paths=4000):
+                 field=None, note="", replay=None, max_paths=4000, checks=None):
         self.prop, self.file, self.func = prop, file, func
         self.filt = filt or func
         self.params = params or (lambda I, ps: None)
@@ -1437,6 +1549,7 @@ class CContract:
         self.enums = enums or {}
         self.field = field or default_field
         self.note, self.replay, self.max_paths = note, replay, max_paths
+        self.checks = checks or {}      # extern name -> fn(I, args) -> [(name, goal)]: functional obligations at call sites
         self.name = f"{os.path.basename(file)}:{func}"
 
 
